@@ -13,11 +13,14 @@ Streams
            (a) correspondence: PageNode tree, files below <out>/page, sidebar / breadcrumb / body
                hrefs of every page equal to the Lean model's;
            (b) property oracle (from the statement, independent of the model) on the real output.
+           (c) multiplicity on the real code: one PageNode per titled Markdown file, no two files written
+               to the same PagetreePage.outfile.
   e2e    : a few complete `ford.main` runs (page dir handling inside main / Documentation),
            project-level copy_subdir and absolute project_url probes; oracle only.
 """
 from __future__ import annotations
 
+import contextlib
 import os
 import random
 import re
@@ -45,7 +48,7 @@ F_ABSURL = "C17-absolute-project-url-breaks-page-links"
 # meta  = {"title": str | None, "ordered": [str], "copy": [str], "links": [(alias, rest)], "entity": bool}
 
 MD_STEMS = ["a", "b", "c", "m", "z", "A", "B", "Z", "_x", "10", "9", "2", "a-b", "ab", "index2", "readme", "Zeta", "b1"]
-DOTTED_STEMS = ["v1.2", "a.b", "rel.1.0"]
+DOTTED_STEMS = ["v1.2", "v1.3", "a.b", "rel.1.0"]  # v1.2 / v1.3 and a / a.b are written to the same page
 DIR_NAMES = ["sub", "img", "d1", "d2", "media", "Sub", "x1", "deep"]
 OTHER_NAMES = ["data.txt", "img.png", "README", "plot.svg", "Makefile", "a.mdx", "notes.markdown", "b.MD"]
 HIDDEN_NAMES = [".hidden", ".hid.md", "x.md~", "old.txt~", ".git"]
@@ -495,6 +498,30 @@ class Impl:
         self.PagetreePage = ford.output.PagetreePage
         self.out = Path(os.path.realpath(self.out))
 
+    @contextlib.contextmanager
+    def recording_sources(self):
+        """every PageNode made during the walk remembers the Markdown file it was made from"""
+        import ford.pagetree as pt
+
+        orig = pt.PageNode
+
+        class Recording(orig):
+            def __init__(s, md, path, *a, **k):
+                s._c17_src = Path(path)
+                super().__init__(md, path, *a, **k)
+
+        pt.PageNode = Recording
+        try:
+            yield
+        finally:
+            pt.PageNode = orig
+
+    def source_of(self, n):
+        src = getattr(n, "_c17_src", None)
+        if src is None:  # (a node that was not made through ford.pagetree.PageNode)
+            return os.path.normpath(os.path.join(str(n.location), str(n.filename) + ".md"))
+        return os.path.relpath(os.path.realpath(src), os.path.realpath(self.page_dir))
+
     def run(self, ch, enc=UTF8):
         """get_page_tree (with the project's encoding `enc`, the way ford.main calls it) +
         PagetreePage.writeout for every node; returns the observation"""
@@ -505,7 +532,8 @@ class Impl:
         obs = {"status": "ok", "nodes": [], "pages": {}, "out": [], "log": ""}
         with common.quiet() as buf:
             try:
-                tree = self.get_page_tree(self.page_dir, self.proj_copy, self.out, self.md, encoding=enc)
+                with self.recording_sources():
+                    tree = self.get_page_tree(self.page_dir, self.proj_copy, self.out, self.md, encoding=enc)
             except ValueError as e:
                 msg = str(e)
                 m = re.match(r"Requested page file '(.*)' does not exist", msg)
@@ -523,13 +551,18 @@ class Impl:
                 return obs
             self.docs.data["pages"] = tree
             nodes = list(tree)
+            outfiles = []
             try:
                 for n in nodes:
-                    self.PagetreePage(self.docs.data, self.docs.project, n).writeout()
+                    pg = self.PagetreePage(self.docs.data, self.docs.project, n)
+                    pg.writeout()
+                    outfiles.append(os.path.relpath(os.path.realpath(pg.outfile), self.out / "page"))
             except Exception as e:  # noqa
                 obs["status"] = f"write-error:{type(e).__name__}:{str(e)[:80]}"
                 return obs
         obs["log"] = buf.getvalue()
+        # which Markdown file became which output file (for the multiplicity part of the oracle)
+        obs["written"] = [[self.source_of(n), o] for n, o in zip(nodes, outfiles)]
         for n in nodes:
             obs["nodes"].append([str(n.path), n.title, [str(h.path) for h in n.hierarchy],
                                  [str(f) for f in n.files], [str(c) for c in n.copy_subdir]])
@@ -733,6 +766,20 @@ def oracle(ch, im, src_root: Path, out: Path, enc=UTF8):
     for p in got_paths:
         if p not in exp_paths:
             fails.append((f"unexpected page {p}", explain_extra(p)))
+    # multiplicity, on the files: every titled Markdown file is the source of exactly one page, and no two
+    # Markdown files are written to the same output file (one would overwrite the other)
+    by_src, by_out = {}, {}
+    for src, outp in im.get("written", []):
+        by_src.setdefault(src, []).append(outp)
+        by_out.setdefault(outp, []).append(src)
+    for n in exp_nodes:
+        src = "/".join(n["src"])
+        if len(by_src.get(src, [])) > 1:
+            fails.append((f"titled file {src} is turned into {len(by_src[src])} pages: {by_src[src]}", None))
+    for outp, srcs in by_out.items():
+        if len(set(srcs)) > 1:
+            fails.append((f"{len(set(srcs))} Markdown files {sorted(set(srcs))} are written to the same page "
+                          f"{outp} (one overwrites the other)", explain_extra(outp)))
     if fails:
         return fails
     # order: depth-first sequence of pages = documented order
@@ -902,6 +949,28 @@ WITNESS_MISSING = [F("index.md", "Top", ordered=["gone.md"]), F("a.md", "A")]
 WITNESS_GRANDPARENT = [F("index.md", "Top", copy=["img"]),
                        D("sub", F("index.md", "Sub"), D("img", F("index.md", "Img"), F("p.md", "P")))]
 WITNESS_DOTTED = [F("index.md", "Top"), F("v1.2.md", "V12")]
+# multiplicity: two titled files, one page (Lean: dotted_stem_collision_witness)
+WITNESS_COLLIDE = [F("index.md", "Top"), F("v1.2.md", "A"), F("v1.3.md", "B")]
+WITNESS_COLLIDE2 = [F("index.md", "Top"), F("v1.md", "A"), F("v1.2.md", "B")]
+# multiplicity: names listed twice in ordered_subpage that the directory listing finds as well, index.md listed
+# explicitly, hidden / backup names (the non-vacuity example of pages_bijection_partial); the property holds here
+WITNESS_LISTED_TWICE = [
+    F("z.md", "Z"),
+    F("index.md", "T", ordered=["z.md", "index.md", "sub", "z.md", ".h.md", "sub"]),
+    F("a.md", "A"), F(".h.md", "H"), F("old.md~", "O"),
+    D("sub", F("index.md", "S", ordered=["a.md", "a.md"]), F("a.md", "A"), D("deep", F("index.md", "D")))]
+
+
+def listed_twice_and_found(ch):
+    """some reached index.md lists a name twice in ordered_subpage that is also an entry of its directory"""
+    idx = find_file(ch, "index.md")
+    if idx is None or idx["k"] != "F" or not idx["meta"]:
+        return False
+    o = idx["meta"]["ordered"]
+    names = {e["name"] for e in ch}
+    if any(o.count(x) > 1 and x in names and x != "index.md" for x in o):
+        return True
+    return any(e["k"] == "D" and listed_twice_and_found(e["ch"]) for e in ch)
 
 
 def decide_variant(impl):
@@ -1000,6 +1069,10 @@ def e2e_stream(rng, n, rep, scratch: Path, direct_impl, feats_hist):
             continue
         if obs["status"] == "ok":
             for p in d_obs["pages"]:
+                if not (out / "page" / p).is_file() or d_obs["pages"][p] is None:
+                    rep.failing_input({"stream": "e2e", "tree": ch, "encoding": enc, "files": pages_dict(ch),
+                                       "why": f"page {p} of the page tree is not written to <output>/page/{p}"}, None)
+                    break
                 a = read_page(out / "page" / p)
                 b = dict(d_obs["pages"][p])
                 # (the entity link of the direct run goes through process-wide NameSelector state that the
@@ -1036,7 +1109,11 @@ def probes(rep, scratch: Path):
     ch[1]["ch"][1]["meta"]["links"] = [("page", "/index.html")]
     obs, out = e2e_run(scratch / "probe2", ch, options={"project_url": "https://example.com/docs"})
     good = False
-    if obs["status"] == "ok":
+    if obs["status"] == "ok" and not (out / "page" / "sub" / "a.html").is_file():
+        rep.failing_input({"stream": "probe", "tree": pages_dict(ch), "options": {"project_url": "https://example.com/docs"},
+                           "why": "titled page sub/a.md is not written to <output>/page/sub/a.html",
+                           "observed_out": obs["out"]}, None)
+    elif obs["status"] == "ok":
         pg = read_page(out / "page" / "sub" / "a.html")
         want = "https://example.com/docs/page/index.html"
         good = pg["body"] == [want] and all(h.startswith("https://example.com/docs/page/") for h in pg["nav"])
@@ -1149,6 +1226,8 @@ def run(tier: str, seed: int, replay: str | None = None) -> int:
     n_bad_corr = 0
     n_oracle_fail = 0
     n_shrunk = 0
+    mult = {"pages_with_source_checked": 0, "trees_with_two_files_on_one_page": 0,
+            "trees_with_a_name_listed_twice_and_found": 0}
     with common.scratch_dir() as d:
         d = Path(os.path.realpath(d))
         impl = Impl(ford, d / "proj")
@@ -1163,7 +1242,8 @@ def run(tier: str, seed: int, replay: str | None = None) -> int:
                 if "tree" in c and isinstance(c["tree"], list):
                     trees.append((c["tree"], {"replay"}, c.get("encoding") or UTF8))
         # the witnesses of the known findings are always replayed
-        for w in (WITNESS_MISSING, WITNESS_GRANDPARENT, WITNESS_DOTTED):
+        for w in (WITNESS_MISSING, WITNESS_GRANDPARENT, WITNESS_DOTTED, WITNESS_COLLIDE, WITNESS_COLLIDE2,
+                  WITNESS_LISTED_TWICE):
             trees.append((w, {"witness"}, UTF8))
         for k in range(n_tree):
             feat: set[str] = set()
@@ -1189,6 +1269,12 @@ def run(tier: str, seed: int, replay: str | None = None) -> int:
         for k, ((ch, feat, enc), mo_raw) in enumerate(zip(trees, model)):
             im, fails = check_one(ch, enc)
             mo = parse_model(mo_raw)
+            wr = im.get("written", [])
+            mult["pages_with_source_checked"] += len(wr)
+            if len({o for _, o in wr}) < len(wr):
+                mult["trees_with_two_files_on_one_page"] += 1
+            if im["status"] == "ok" and listed_twice_and_found(ch):
+                mult["trees_with_a_name_listed_twice_and_found"] += 1
             status_hist[im["status"].split(":")[0]] = status_hist.get(im["status"].split(":")[0], 0) + 1
             for f in feat:
                 feats_hist[f] = feats_hist.get(f, 0) + 1
@@ -1256,6 +1342,7 @@ def run(tier: str, seed: int, replay: str | None = None) -> int:
         nesting_depth_histogram=dict(sorted(depth_hist.items())),
         status_histogram=status_hist,
         e2e_runs=n_e2e,
+        multiplicity=mult,
         probes=probe_results,
         generated_tables=_tables(tr),
     )
